@@ -3,7 +3,7 @@
    unread rest; None = the reader's sticky error (BinReader.Err <> nil at the end).
    The model is of the CORRECT behaviour: write_varuint uses [<=] at the 0xFFFF / 0xFFFFFFFF
    boundaries like io.getVarIntSize and the reference node; the unchanged PutVarUint uses [<]
-   there (finding F18), which the correspondence reports. *)
+   there (finding F19), which the correspondence reports. *)
 From NG Require Import Common.Tactics Codec.Bigint.
 Open Scope Z_scope.
 
